@@ -343,13 +343,14 @@ impl SimCard {
         let mut corrupted = false;
         if let Adversary::FlipBits { block_no, bits } = &self.cfg.adversary {
             if *block_no == n {
+                let clean = all.clone();
                 for &bit in bits {
                     let byte = (bit / 8) as usize;
                     if byte < all.len() {
                         all[byte] ^= 0x80 >> (bit % 8);
-                        corrupted = true;
                     }
                 }
+                corrupted = all != clean;
             }
         }
         for b in all {
